@@ -6,7 +6,11 @@
      or implausible (< 1 or > 2048); the driver cross-checks this normalisation with its own reader.
    Observed state after every step:
      [ media : Seq([name, ext, ctype, img])     image parts of the package (img = universe index by SHA1, 0 = unknown bytes)
-       pics  : Seq([slide, img, blobOk, cx, cy, args, aspectOk, via]) ]   pictures added so far, in order of addition     *)
+       pics  : Seq([slide, img, blobOk, cx, cy, args, aspectOk, via, now]) ]   pictures added so far, in order of addition;
+                                     now = the image the picture shape shows WHEN OBSERVED (re-read through the live deck after every step)
+   Part lifecycle: an image part lives as long as a relationship reaches it.  Removing a slide layout that carries a picture
+   (op "removeLayout") can make its image part unreachable: it leaves the package, its name becomes free for the next image, and
+   adding the same bytes later must store them again under a name no live part holds.                                          *)
 EXTENDS Naturals, Integers, Sequences, FiniteSets, TLC
 CONSTANT U
 
@@ -22,7 +26,7 @@ Imgs(o) == [i \in DOMAIN o.media |-> o.media[i].img]
 
 \* a : [op |-> "addPicture" | "insertPicture" | "addMovie" | "addOle" | "save" | "reopen", slide, img, args \in {"none","w","h","both"}, via]
 Names == <<"OnePartPerImage", "DistinctNames", "ExtAndTypeOfActualFormat", "StoredBytesExact", "PictureBlobExact",
-           "ImageStored", "NothingElseChanges", "NativeSize", "AspectKept", "RequestedSize">>
+           "ImageStored", "NothingElseChanges", "NativeSize", "AspectKept", "RequestedSize", "RemovalKeepsUsed", "PicturesShowTheirImage">>
 Holds(n, s, a, t) ==
   LET adds == a.op \in {"addPicture", "insertPicture", "addMovie", "addOle"} /\ a.img > 0
       last == t.pics[Len(t.pics)]
@@ -33,7 +37,12 @@ Holds(n, s, a, t) ==
     [] n = "StoredBytesExact"  -> 0 \notin SeqSet(Imgs(t))            \* every stored image part is byte-identical to a universe image
     [] n = "PictureBlobExact"  -> \A p \in SeqSet(t.pics) : p.blobOk
     [] n = "ImageStored"       -> adds => SeqSet(Imgs(t)) = SeqSet(Imgs(s)) \cup {a.img}
-    [] n = "NothingElseChanges" -> (~adds) => SeqSet(t.media) = SeqSet(s.media)
+    [] n = "NothingElseChanges" -> (~adds /\ a.op # "removeLayout") => SeqSet(t.media) = SeqSet(s.media)
+    \* a removal stores nothing new, renames nothing, and every image some picture still shows stays stored
+    [] n = "RemovalKeepsUsed"  -> (a.op = "removeLayout") => (SeqSet(t.media) \subseteq SeqSet(s.media)
+                                                              /\ \A p \in SeqSet(t.pics) : p.img \in SeqSet(Imgs(t)))
+    \* every picture added so far still shows the bytes it was added with (in memory, and again after a re-open)
+    [] n = "PicturesShowTheirImage" -> \A p \in SeqSet(t.pics) : p.now = p.img
     [] n = "NativeSize"        -> (a.op = "addPicture" /\ a.args = "none") =>
                                      (last.img = a.img /\ Abs(last.cx * U[a.img].dx - EMU * U[a.img].pw) <= U[a.img].dx
                                                        /\ Abs(last.cy * U[a.img].dy - EMU * U[a.img].ph) <= U[a.img].dy)
